@@ -114,7 +114,7 @@ def ancestors(cls, parents):
 
 class C20:
     id = "C20"
-    cases = {"quick": 1, "thorough": 30}
+    cases = {"quick": 2, "thorough": 30}
     rule = ("per case a generated user hierarchy (3-7 classes, depth <=3, up to two parents each, an interface with "
             "implementer, a two-level exception chain) is compiled into a context; the universe is every plain class of that "
             "context (built-in and user), List/Set/Dict/Tuple instantiations to depth 2, function types, the nullable variant of "
@@ -169,11 +169,13 @@ class C20:
                 by_members[tags["members"]] = i
         # terms and == queries for the algebraic laws ride along in the same tabulation
         checks = []
-        for u, (t, tags) in enumerate(terms):
-            if tags["kind"] == "union":
-                a, b = tags["members"]
-                checks.append(("commutative", u, {"u": [terms[b][0], terms[a][0]]}))
-                checks.append(("idempotent", a, {"u": [terms[a][0], terms[a][0]]}))
+        unions = [(u, tags["members"]) for u, (t, tags) in enumerate(terms) if tags["kind"] == "union"]
+        if self.tier == "quick":
+            step = max(1, len(unions) // 20)
+            unions = unions[case["pick"] % step::step]
+        for u, (a, b) in unions:
+            checks.append(("commutative", u, {"u": [terms[b][0], terms[a][0]]}))
+            checks.append(("idempotent", a, {"u": [terms[a][0], terms[a][0]]}))
         tri = {}
         for u, (t, tags) in enumerate(terms):
             if tags["kind"] == "union3":
